@@ -236,6 +236,21 @@ def corpus_descs():
     for bt, en in ((cc.BASCII, 1), (cc.BUTF8, 4), (cc.BUNI, 0)):
         out.append(([cc.param("p1", dict(k="value", dop=cc.simple(cc.std(bt, 16, en)), dflt=None))], False,
                     [{"p1": "ab"}, {"p1": "a"}]))
+    # a structure with BYTE-SIZE written in front of bytes which are already in the PDU (parameters listed out of wire
+    # order): only the structure's own bytes are padded
+    blk = cc.struct([cc.param("x", dict(k="value", dop=u8(), dflt=None))], byte_size=3)
+    out.append(([cc.param("sid", dict(k="coded", dct=cc.std(cc.BUINT, 8), v=0x22), 0),
+                 cc.param("trailer", dict(k="value", dop=u8(), dflt=None), 4),
+                 cc.param("blk", dict(k="value", dop=blk, dflt=None), 1)], False,
+                [{"trailer": 0xAA, "blk": {"x": 0x11}}, {"trailer": 0, "blk": {"x": 0xFF}}]))
+    # objects of zero length at an explicit position beyond the end of the PDU, as last object: the PDU reaches up to them
+    out.append(([cc.param("sid", dict(k="coded", dct=cc.std(cc.BUINT, 8), v=0x22), 0),
+                 cc.param("data", dict(k="value", dop=cc.simple(cc.minmax(cc.BBYTES, 0, None, 2)), dflt=None), 3)], False,
+                [{"data": b""}, {"data": b"ab"}]))
+    out.append(([cc.param("sid", dict(k="coded", dct=cc.std(cc.BUINT, 8), v=0x23), 0),
+                 cc.param("len", dict(k="lenkey", dop=cc.simple(cc.std(cc.BUINT, 8))), 1),
+                 cc.param("blob", dict(k="value", dop=cc.simple(cc.paramlen(cc.BBYTES, "len")), dflt=None), 4)], False,
+                [{"blob": b""}, {"blob": b"xyz"}]))
     # bit masks on little-endian and big-endian integers, with and without a bit position: the unmasked bits
     # come back, the masked ones are dropped
     for hl in (True, False):
